@@ -1,14 +1,21 @@
 (* C09 — Results are deterministic and independent of call history.  Statements only.
    PARTIAL (DESIGN.md 4.C09): determinism is vacuous for Gallina functions, so each source
-   of nondeterminism is a parameter and the theorem says the result does not depend on
-   it.  Modelled: the order in which the add-back loop visits the API versions
+   of nondeterminism is a parameter and the theorem says the result does not depend on it.
+   Modelled: the order in which the add-back loop visits the API versions
    ([cfg_version_order]; every other range over a Go map feeds a set or a map, which the
-   model represents as sorted association lists).  Proved: with at most one version besides
-   the pruned one the order cannot matter.  With more versions the repaired algorithm
-   (commit 7abda2a) iterates to a fixed point; its order independence is not proved, the
-   correspondence run evaluates the model with the versions in both orders against the
-   implementation.  Walker pools, the freelist allocator and value-map iteration order are
-   covered by repeated runs only. *)
+   model represents as sorted association lists).
+   Proved (Proofs/OrderIndepN.v ...): for ANY number of versions (identity converter, one
+   schema), for a merged object without empty lists, the add-back loop terminates within
+   the model's fuel and the pruned object does not depend on the order -- by showing that
+   one pass is the monotone operator K |-> {q in nodes(M) : every prefix of q is in K or
+   owned at that version} and that every run stops exactly at the least common fixed
+   point; hence prune does not depend on the order either.  With empty lists this is FALSE
+   (refutation and the witness found on the way: findings F20 -- the loop as first repaired
+   did not terminate -- and F22 -- what it left depended on the order; the implementation
+   now visits the versions in sorted order, which is the model's order).  The case of at
+   most one other version (first theorem) needs no hypothesis at all.
+   Walker pools, the freelist allocator and value-map iteration order are covered by
+   repeated runs only. *)
 From Coq Require Import List ZArith String Bool Permutation.
 From SMD Require Import Model.Value Model.Order Model.PathSet Model.Updater Proofs.OrderIndep.
 Import ListNotations.
@@ -20,3 +27,174 @@ Theorem C09_version_order_irrelevant_le1 : forall c pi1 pi2 n merged pruned pv m
   = add_back_owned (with_order c pi2) n merged pruned pv mf.
 Proof. exact add_back_order_irrelevant_le1. Qed.
 Print Assumptions C09_version_order_irrelevant_le1.
+
+(* ---- any number of versions ---- *)
+From Coq Require Import Arith Lia.
+From SMD Require Import Model.PathElem Model.Schema Model.Walk Model.Validate Model.FieldSet Model.Remove Model.Merge
+  Model.Compare Model.Matcher Model.Reconcile Spec.PathsAsSets Spec.RefValid Spec.Resolve Spec.Agree Spec.Examples
+  Proofs.OrderLaws Proofs.PathSetLaws Proofs.SchemaOk Proofs.FieldSetBase Proofs.FieldSetShape
+  Proofs.FieldSetPaths Proofs.FieldSetWf Proofs.FieldSetLaws Proofs.RemoveAbsent Proofs.RemoveWf
+  Proofs.ResolveLaws Proofs.ReconcileBase Proofs.MergeBase
+  Proofs.RemoveFrame Proofs.RemoveMono Proofs.EnLaws Proofs.NodeSet Proofs.KeyFields Proofs.VeqbResolve
+  Proofs.ApplyEffect Proofs.PruneShape Proofs.RemoveExt Proofs.Visible Proofs.NodeCount Proofs.OrderIndepN.
+Theorem C09_add_back_order_independent :
+  forall (c : config) (s : schema) (R : typeref -> Prop) (tr : typeref),
+         conv_id c ->
+         (forall v : string, cfg_schema c v = (s, tr)) ->
+         schema_ok s R ->
+         family_refs s R ->
+         R tr ->
+         keys_nodefault s R ->
+         keys_scalar s R ->
+         forall (M : value) (T0 : pset) (mf : managed),
+         wf_value M = true ->
+         conforms s tr false M = true ->
+         no_empty_list M = true ->
+         nice s tr M T0 ->
+         (forall (v : string) (U : pset),
+          assoc_get v (managed_at_version mf) = Some U ->
+          ps_ok U = true /\ owns_live_keys s tr M U) ->
+         forall pi1 pi2 : list string -> list string,
+         (forall l : list string, Permutation l (pi1 l)) ->
+         (forall l : list string, Permutation l (pi2 l)) ->
+         forall (n : nat) (lm lp pv : string) (r1 : tv) (n1 : nat) (r2 : tv) (n2 : nat),
+         add_back_owned (with_order c pi1) n (lm, M) (lp, remove s tr M T0) pv mf = UOk (r1, n1) ->
+         add_back_owned (with_order c pi2) n (lm, M) (lp, remove s tr M T0) pv mf = UOk (r2, n2) ->
+         snd r1 = snd r2.
+Proof. exact add_back_owned_order_independent. Qed.
+Print Assumptions C09_add_back_order_independent.
+
+Theorem C09_add_back_terminates :
+  forall (c : config) (s : schema) (R : typeref -> Prop) (tr : typeref),
+         conv_id c ->
+         (forall v : string, cfg_schema c v = (s, tr)) ->
+         schema_ok s R ->
+         family_refs s R ->
+         R tr ->
+         keys_nodefault s R ->
+         keys_scalar s R ->
+         forall (M : value) (T0 : pset) (mf : managed),
+         wf_value M = true ->
+         conforms s tr false M = true ->
+         no_empty_list M = true ->
+         nice s tr M T0 ->
+         (forall (v : string) (U : pset),
+          assoc_get v (managed_at_version mf) = Some U ->
+          ps_ok U = true /\ owns_live_keys s tr M U) ->
+         forall (pi : list string -> list string) (n : nat) (lm lp pv : string),
+         (forall l : list string, Permutation l (pi l)) ->
+         exists (T' : pset) (lp' : string) (n' : nat),
+           nice s tr M T' /\
+           add_back_owned (with_order c pi) n (lm, M) (lp, remove s tr M T0) pv mf =
+           UOk (lp', remove s tr M T', n').
+Proof. exact add_back_owned_total. Qed.
+Print Assumptions C09_add_back_terminates.
+
+Theorem C09_prune_order_independent :
+  forall (c : config) (s : schema) (R : typeref -> Prop) (tr : typeref),
+         conv_id c ->
+         (forall v : string, cfg_schema c v = (s, tr)) ->
+         schema_ok s R ->
+         family_refs s R ->
+         R tr ->
+         keys_nodefault s R ->
+         keys_scalar s R ->
+         forall (M : value) (mf : managed) (last : mrec),
+         wf_value M = true ->
+         conforms s tr false M = true ->
+         no_empty_list M = true ->
+         ps_ok (mr_set last) = true ->
+         applier_record_ok s tr (mr_set last) ->
+         (forall (v : string) (U : pset),
+          assoc_get v (managed_at_version mf) = Some U ->
+          ps_ok U = true /\ owns_live_keys s tr M U) ->
+         forall pi1 pi2 : list string -> list string,
+         (forall l : list string, Permutation l (pi1 l)) ->
+         (forall l : list string, Permutation l (pi2 l)) ->
+         forall (n : nat) (lm mgr : string),
+         exists (o : tv) (n1 n2 : nat),
+           prune (with_order c pi1) n (lm, M) mf mgr (Some last) = UOk (o, n1) /\
+           prune (with_order c pi2) n (lm, M) mf mgr (Some last) = UOk (o, n2).
+Proof. exact prune_order_independent. Qed.
+Print Assumptions C09_prune_order_independent.
+
+Theorem C09_three_version_example :
+  forall pi1 pi2 : list string -> list string,
+         (forall l : list string, Permutation l (pi1 l)) ->
+         (forall l : list string, Permutation l (pi2 l)) ->
+         exists (P : value) (lp1 : string) (n1 : nat) (lp2 : string) 
+         (n2 : nat),
+           ex3_run pi1 = UOk (lp1, P, n1) /\
+           ex3_run pi2 = UOk (lp2, P, n2) /\
+           (exists T' : pset,
+              nice ex_schema ex_rt ex3_merged T' /\ P = remove ex_schema ex_rt ex3_merged T').
+Proof. exact ex3_by_theorem. Qed.
+Print Assumptions C09_three_version_example.
+
+Theorem C09_order_matters_with_empty_lists :
+  ~ prune_order_independent_with_empty_lists.
+Proof. exact prune_order_independence_needs_no_empty_list. Qed.
+Print Assumptions C09_order_matters_with_empty_lists.
+
+Theorem C09_apply_order_dependent_witness :
+  let a1 :=
+           apply_op cx_config ("v1", VMap nil) ("v2", VMap (("g", VMap nil) :: nil)) "v2" nil
+             "m2" false in
+         let mf1 :=
+           ("m2",
+            {|
+              mr_set := ps_of_paths ((PEField "g" :: nil) :: nil);
+              mr_ver := "v2";
+              mr_applied := true
+            |}) :: nil in
+         let live1 := ("v1", VMap (("g", VMap nil) :: nil)) in
+         let a2 :=
+           apply_op cx_config live1 ("v1", VMap (("g", VMap (("c", VMap nil) :: nil)) :: nil))
+             "v1" mf1 "m1" false in
+         let mf2 :=
+           ("m1",
+            {|
+              mr_set := ps_of_paths ((PEField "g" :: PEField "c" :: nil) :: nil);
+              mr_ver := "v1";
+              mr_applied := true
+            |})
+           :: ("m2",
+               {|
+                 mr_set := ps_of_paths ((PEField "g" :: nil) :: nil);
+                 mr_ver := "v2";
+                 mr_applied := true
+               |}) :: nil in
+         let live2 := ("v1", VMap (("g", VMap (("c", VMap nil) :: nil)) :: nil)) in
+         let a3 := apply_op cx_config live2 ("v3", cx_merged) "v3" mf2 "m3" false in
+         a1 = UOk (Some live1, mf1) /\
+         a2 = UOk (Some live2, mf2) /\
+         a3 = UOk (Some cx_live3, cx_mf3) /\
+         apply_op (with_order cx_config (fun l : list string => l)) cx_live3
+           ("v3", VMap (("z", VInt 1) :: nil)) "v3" cx_mf3 "m3" false =
+         UOk
+           (Some ("v3", VMap (("g", VNull) :: ("z", VInt 1) :: nil)),
+            ("m2",
+             {|
+               mr_set := ps_of_paths ((PEField "g" :: nil) :: nil);
+               mr_ver := "v2";
+               mr_applied := true
+             |})
+            :: ("m3",
+                {|
+                  mr_set := ps_of_paths ((PEField "z" :: nil) :: nil);
+                  mr_ver := "v3";
+                  mr_applied := true
+                |}) :: nil) /\
+         apply_op (with_order cx_config (rev (A:=string))) cx_live3
+           ("v3", VMap (("z", VInt 1) :: nil)) "v3" cx_mf3 "m3" false =
+         UOk
+           (Some ("v3", VMap (("z", VInt 1) :: nil)),
+            ("m3",
+             {|
+               mr_set := ps_of_paths ((PEField "z" :: nil) :: nil);
+               mr_ver := "v3";
+               mr_applied := true
+             |}) :: nil).
+Proof. exact apply_order_dependent_empty_list. Qed.
+Print Assumptions C09_apply_order_dependent_witness.
+
